@@ -221,6 +221,13 @@ fn plans_c15(tier: Tier) -> Vec<Plan> {
     v.push(Plan { cfg: c2.clone(), depth_by_devs: if q { vec![3] } else { vec![5, 4] } });
     c2.max_out = 2;
     v.push(Plan { cfg: c2, depth_by_devs: if q { vec![3] } else { vec![5] } });
+    // a will with the retain flag (c1) while c2 holds a matching subscription: the will is
+    // stored as the retained message of its topic, the live copy is not flagged
+    let mut c3 = c1.clone();
+    c3.variant = 3;
+    c3.prelude[1] = Act::Connect { c: 1, clean: true, will: 2 };
+    c3.prelude.push(Act::Sub { c: 2, f: 0, qos: 1 });
+    v.push(Plan { cfg: c3, depth_by_devs: if q { vec![3] } else { vec![5, 4] } });
     v
 }
 
